@@ -18,7 +18,7 @@ RELAY = os.path.join(cc.BUILD, 'bin', 'eph-relay-server')
 RULE = ('Hypothesis case -> 1..12 steps against one real `eph-relay-server` (ASan/UBSan build), up to 6 clients. A step = a client (new or existing) + an action: progress towards a bridge (register an idle client / connect an idle client to a registered one / send the pending identity; 4 in 15), REGISTER one of 4 ids '
         '(canonical / upper-case / 63 hex / bad hex / CRLF), CONNECT self target (registered id / unknown / own id), 32 identity bytes (whole / partial), data (1..70000 bytes), junk lines '
         '(PONG, blank, unknown verbs), a line of 4096 / 65536 / 200000 bytes with or without newline, NUL bytes, half a command; or the client leaves: close, TCP reset (SO_LINGER 0), '
-        'half-close. At the end every remaining client leaves (close or reset, generated). Oracle once all clients are gone (<= 3 s grace): the process has not exited, '
+        'half-close. At the end every remaining client leaves (close or reset, generated). Oracle once all clients are gone (<= 20 s grace): the process has not exited, '
         'its open-descriptor count equals the count before the case, a CONNECT to any id used in the case is refused (no registration survives), then every such id can be REGISTERed by a fresh client (answer OK) and a fresh connector is bridged to it '
         '(OK, then BEGIN at the target), no sanitizer report in the log. Non-trivial: a client that left by reset or mid-command while registered, claimed or bridged. '
         'Distinct = hash of the rendered case.')
@@ -120,7 +120,7 @@ class Client:
         self.s.close()
 
 
-def read_line(sock, timeout=3.0):
+def read_line(sock, timeout=20.0):   # generous: a starved relay on a loaded machine is not a verdict
     sock.settimeout(timeout)
     buf = b''
     try:
@@ -259,7 +259,7 @@ def case_fn(ctx, case):
     if risky:
         ctx.nt('client_left_by_reset_or_mid_command')
     # ---- everything must be given back
-    deadline = time.monotonic() + 3.0
+    deadline = time.monotonic() + 20.0
     fds = fd_count()
     while fds != base_fds and time.monotonic() < deadline and alive():
         time.sleep(0.02)
@@ -298,7 +298,7 @@ def case_fn(ctx, case):
             if not alive():
                 fail_dead(ctx, 'the release probe')
             ctx.fail('C26:relay-not-serving', 'probe for id #%d failed with %s' % (i, type(ex).__name__))
-    deadline = time.monotonic() + 3.0
+    deadline = time.monotonic() + 20.0
     while fd_count() != base_fds and time.monotonic() < deadline:
         time.sleep(0.02)
     if fd_count() > base_fds:
